@@ -26,7 +26,7 @@ STYLES = ('tight', 'normal', 'lines', 'wild', 'spaced')
 
 def comment_text(rng, glyphs=True):
     n = rng.randint(0, 24)
-    pool = b'abcdefghij klmnop qrstuvwxyz ABC 0123456789 .,;:!?()+-*/=<>\'"{}#'
+    pool = b'abcdefghij klmnop qrstuvwxyz ABC 0123456789 .,;:!?()+-*/=<>\'"{}#\\\\'
     out = bytearray()
     for _ in range(n):
         if glyphs and rng.random() < 0.08:
